@@ -74,6 +74,12 @@ inductive Ev where
   | rp (o : Nat)                                 -- o called replace_program() (takes effect at the top of the backend loop)
   | rpNone (o : Nat)                             -- ... not possible (a blueprint, or the program was replaced already)
   | rpDone (o : Nat)                             -- the backend loop swapped o's program for one without heart_beat()
+  | cgAfter (v : Option Nat)                     -- command_giver after one pass of the backend loop
+  | errR                                         -- destruct() of another object refused inside move_or_destruct(): an uncaught error
+  | moved (item dest : Nat)                      -- `item` moved itself into `dest`
+  | movedNone (item dest : Nat)                  -- ... refused
+  | hookMoved (item : Nat)                       -- move_or_destruct() returned and the item is somewhere else: it survives
+  | passLimit                                    -- harness rule: no further timer tick is delivered inside this `tick`
   | junk (s : String)                            -- crash / sanitizer / unparsable line
   deriving Repr, DecidableEq
 
@@ -296,6 +302,22 @@ def judge1 (j : JState) (e : Ev) : JState :=
     -- programs are swapped between rounds only; from now on the object has no heart_beat function: it stays on the
     -- list, is counted down, and is never called
     if j.expect != .idle then j.flagV s!"program-replaced-inside-round {showOid o}" else { j with nofn := o :: j.nofn }
+  | .errR =>
+    let j1 := match j.cur with
+      | some c => { jDisableAlive j c with cur := none }
+      | none => j
+    if j1.inRound then { j1 with expect := .abort } else j1
+  | .moved _ _ => j
+  | .movedNone _ _ => j
+  | .hookMoved i => if j.alive i then j else j.flagV s!"moved-item-is-gone {showOid i}"
+  | .passLimit =>
+    if j.expect != .idle then j.flagV "pass-limit-inside-round" else { j with trunc := false }
+  | .cgAfter v =>
+    -- "the caller resets it to 0 anyway": no heart_beat object stays behind as command_giver, whether the round
+    -- completed (cleared after every call) or was abandoned (restore_context)
+    match v with
+    | none => j
+    | some o => j.flagV s!"command-giver-left-behind {showOid o}"
   | .junk s => j.flagV s
 
 /-- violations found on a trace, oldest first; `[]` = the property held on this trace -/
